@@ -1,6 +1,7 @@
 (* Props/C14.v -- property C14: the PHY driver and the radio chip never disagree about the radio's state. *)
 From Coq Require Import ZArith NArith List Bool.
-From LoraV Require Import Base.Bytes Gen.PhyTables Model.PhyCore Model.LoraDrv Proofs.LoraProofs.
+From LoraV Require Import Base.Bytes Gen.PhyTables Model.PhyCore Model.Sx126x Model.Sx127x Model.LoraDrv Model.LoraKinds Spec.ChipMon
+  Proofs.LoraProofs Proofs.PhyHoare Proofs.PlainProgs Proofs.KindSpec Proofs.LoraInv Proofs.Kind126Proofs Proofs.Kind127Proofs Proofs.LoraHistory.
 Import ListNotations.
 Local Open Scope nat_scope.
 
@@ -21,3 +22,100 @@ Proof.
     intros pk buflen. apply get_rx_result_refused. exact H.
   - intros md H. apply cad_refused. exact H.
 Qed.
+
+(* clauses 2-4, SX126x (SX1261 / SX1262 / STM32WL boards g, with or without TCXO / DC-DC): along every history of API operations
+     init, sleep(warm/cold), prepare_for_tx, tx, prepare_for_rx(single/continuous/duty), start_rx, complete_rx, rx, rx_switch_channel,
+     listen, prepare_for_cad, cad, set_lora_sync_word
+   run on the emulated chip with ANY register / read contents, interrupt script, a fault at ANY SPI / BUSY / IRQ position, ANY wait
+   that never completes (the caller's future dropped), and with the environment free to change everything of the chip between the
+   operations except the driver object, the chip-side monitor (Spec/ChipMon.v: datasheet reading of the pin-level trace) has
+     - never seen a command reach a sleeping chip (or one in the sleep phase of RxDutyCycle) that had not been woken   [bad_asleep = false]
+     - never seen a transmission / reception / CAD start with something it depends on not programmed since the configuration was
+       last lost (packet type, sync word, regulator / TCXO, buffer bases, modulation, packet, IRQ, frequency, PA)      [bad_start = false]
+   and the driver's fields agree with the chip: the chip is asleep only if the driver believes Sleep, in an active mode (TX, RX,
+   duty-cycled RX, CAD) only if that is the driver's mode, in standby whenever the driver believes Standby, and the cold_start flag
+   is set whenever the chip has lost its basic configuration. *)
+Theorem C14_sx126x_every_history : forall tc dc lo g (HD : g_dcdc g = dc) (HT : tc = match g_tcxo g with Some _ => true | None => false end)
+    fuel rfuel c m,
+  hist126 tc dc lo g HD HT fuel rfuel c m ->
+  bad_asleep m = false /\ bad_start m = false /\ agree (dmode (c_drv c)) (cm m) /\
+  (cold (c_drv c) = false -> valid_all m (it_init126 tc dc ++ [ITxParams; IPaConfig] ++ [IIrq])).
+Proof.
+  intros tc dc lo g HD HT fuel rfuel c m H. apply hist126_inv in H. destruct H as [[O1 O2] [A [C _]]]. repeat split; assumption.
+Qed.
+
+(* clause 4 for one operation: from any state of such a history, an operation that fails for a reason other than the pins (and is not
+   refused for the mode, cancelled or a panic) leaves the chip in standby with the driver in standby -- or, for an error found
+   before the radio was started / after the reception had ended, still in the prepared state it was in; after a timeout always
+   standby on both sides; only a continuous reception goes on *)
+Theorem C14_sx126x_failed_operation : forall tc dc lo g (HD : g_dcdc g = dc) (HT : tc = match g_tcxo g with Some _ => true | None => false end)
+    fuel rfuel o c m c' tr e,
+  valid_op o -> I126 tc dc lo g HD HT (c_drv c) m -> run rfuel c (op_prog (kind126 g) fuel o) [] = (c', tr, Some (inr e)) -> op_err e ->
+  (dmode (c_drv c) = MRx RxContinuous /\ dmode (c_drv c') = dmode (c_drv c)) \/
+  (cm (mon_op (xl126 tc dc lo (is_listen o)) m tr) = CStby /\
+   (dmode (c_drv c') = MStandby \/ (dmode (c_drv c') = dmode (c_drv c) /\ ~ timeout e))).
+Proof.
+  intros tc dc lo g HD HT fuel rfuel o c m c' tr e VO HI R OE. pose proof (run126_keeps tc dc lo g HD HT fuel rfuel o c m VO HI) as S.
+  rewrite R in S. destruct S as [_ C]. apply (C e eq_refl OE).
+Qed.
+
+(* the same for the SX127x (SX1276 / SX1272 boards h), with LoRa-mode selection left out of what a start requires (x_lora = false):
+   see C14_sx127x_lora_mode_refuted below *)
+Theorem C14_sx127x_every_history : forall tc dc h quirk (HT : h_tcxo h = tc) fuel rfuel c m,
+  hist127 tc dc h quirk HT fuel rfuel c m ->
+  bad_asleep m = false /\ bad_start m = false /\ agree (dmode (c_drv c)) (cm m) /\
+  (cold (c_drv c) = false -> valid_all m (it_init127 tc ++ [IPaConfig] ++ [IIrqMask; IDioMap])).
+Proof.
+  intros tc dc h quirk HT fuel rfuel c m H. apply hist127_inv in H. destruct H as [[O1 O2] [A [C _]]]. repeat split; assumption.
+Qed.
+Theorem C14_sx127x_failed_operation : forall tc dc h quirk (HT : h_tcxo h = tc) fuel rfuel o c m c' tr e,
+  valid_op o -> I127 tc dc h quirk HT (c_drv c) m -> run rfuel c (op_prog (kind127 h quirk) fuel o) [] = (c', tr, Some (inr e)) -> op_err e ->
+  (dmode (c_drv c) = MRx RxContinuous /\ dmode (c_drv c') = dmode (c_drv c)) \/
+  (cm (mon_op (xl127 tc dc (is_listen o)) m tr) = CStby /\
+   (dmode (c_drv c') = MStandby \/ (dmode (c_drv c') = dmode (c_drv c) /\ ~ timeout e))).
+Proof.
+  intros tc dc h quirk HT fuel rfuel o c m c' tr e VO HI R OE. pose proof (run127_keeps tc dc h quirk HT fuel rfuel o c m VO HI) as S.
+  rewrite R in S. destruct S as [_ C]. apply (C e eq_refl OE).
+Qed.
+
+(* histories start where LoRa::new starts: a chip just powered on, the driver object freshly built *)
+Theorem C14_initial_state : forall x K KO sw, Inv x K KO (initial_fields sw) power_on.
+Proof. exact initial_inv. Qed.
+
+(* ---- concrete histories: the premises are satisfiable, and the known finding *)
+Definition chip_of (k : chipkind) (fault : option N) (on_irq : list (N * list N)) (d : drv) : chip :=
+  {| c_kind := k; c_regs := repeat 0%N (N.to_nat 4096); c_reads := []; c_fill := 0%N; c_buf := repeat 0%N 256; c_fifo := 0%N; c_events := 0%N;
+     c_fault := fault; c_drv := d; c_irq_calls := 0%N; c_irq_budget := 6%N; c_pend := None; c_on_irq := on_irq |}.
+Definition md0 : mdl := {| md_sf := 2%N; md_bw := 7%N; md_cr := 0%N; md_ldro := 0%N; md_freq := 868100000%N |}.
+Definition pk0 : pktp := {| pk_preamble := 8%N; pk_implicit := false; pk_len := 0%N; pk_crc := true; pk_iq := false |}.
+(* run a list of (fault position, interrupt script, operation) from the state LoRa::new starts from; the monitor with context x *)
+Fixpoint play (x : mctx) (k : chipkind) (K : kind) (steps : list (option N * list (N * list N) * apiop)) (d : drv) (m : mon)
+  : drv * mon * list (option (unit + rerr)) :=
+  match steps with
+  | [] => (d, m, [])
+  | (flt, irqs, o) :: rest =>
+    let '(c', tr, r) := run 3000 (chip_of k flt irqs d) (op_prog K 40 o) [] in
+    let x' := {| x_fam := x_fam x; x_tcxo := x_tcxo x; x_dcdc := x_dcdc x; x_listen := is_listen o; x_lora := x_lora x |} in
+    let '(d2, m2, rs) := play x k K rest (c_drv c') (mon_op x' m tr) in (d2, m2, r :: rs)
+  end.
+
+Definition g1262 : cfg126 := {| g_low_power_pa := false; g_pa_table := sx1262_pa_table; g_dio2_rfswitch := true; g_tcxo := None; g_dcdc := false; g_rx_boost := false |}.
+Definition h1276 : cfg127 := {| h_variant := V1276; h_tcxo := false; h_tx_boost := false; h_rx_boost := false |}.
+
+(* new; prepare_for_tx; tx (TxDone); sleep(cold); prepare_for_rx(single); rx (RxDone) on an SX1262: every step succeeds, nothing is flagged *)
+Example C14_sx126x_history_example :
+  let '(d, m, rs) := play (x126 false false false true) K126 (kind126 g1262)
+      [(None, [], OInit); (None, [], OPrepTx md0 pk0 14%Z [1%N; 2%N]); (None, [(1%N, [])], OTx); (None, [], OSleep false);
+       (None, [], OPrepRx (RxSingle 10%N) md0 pk0); (None, [(2%N, [0%N; 5%N; 0%N])], ORx pk0 16%N)] (initial_fields 0x3444%N) power_on in
+  rs = [Some (inl tt); Some (inl tt); Some (inl tt); Some (inl tt); Some (inl tt); Some (inl tt)] /\
+  bad_asleep m = false /\ bad_start m = false /\ cm m = CStby /\ dmode d = MRx (RxSingle 10%N).
+Proof. vm_compute. repeat split; reflexivity. Qed.
+
+(* KNOWN FINDING sx127x-failed-reset-leaves-fsk-mode, as a witness: with LoRa-mode selection counted among the things a start depends
+   on (x_lora = true), the history  init with a fault at the first SPI transaction after the reset pulse; prepare_for_tx; tx
+   starts a transmission that the monitor flags (the chip is still in FSK mode): the SX127x statement above cannot include that item *)
+Theorem C14_sx127x_lora_mode_refuted :
+  let '(d, m, rs) := play {| x_fam := K127; x_tcxo := false; x_dcdc := false; x_listen := false; x_lora := true |} K127 (kind127 h1276 false)
+      [(Some 0%N, [], OInit); (None, [], OPrepTx md0 pk0 14%Z [1%N; 2%N]); (None, [(8%N, [])], OTx)] (initial_fields 0x3444%N) power_on in
+  rs = [Some (inr ESpi); Some (inl tt); Some (inl tt)] /\ bad_start m = true.
+Proof. vm_compute. split; reflexivity. Qed.
